@@ -145,7 +145,10 @@ fn gen_build(rng: &mut Rng, universe: u32, relate_to: Option<&Build>) -> Build {
         _ => rng.range(2, 600) as usize,
     };
     let usable: Vec<u32> = THRESHOLDS.iter().copied().filter(|&t| t + 12 < universe).collect();
-    let n = if cap0 == 0 && !usable.is_empty() && rng.chance(2, 3) {
+    let n = if rng.chance(1, 12) {
+        // empty and near-empty operands are corner cases of every predicate
+        rng.below(3) as u32
+    } else if cap0 == 0 && !usable.is_empty() && rng.chance(2, 3) {
         (*rng.pick(&usable) + 1 + rng.below(11) as u32).min(universe - 1)
     } else {
         rng.below((universe as u64).min(300)) as u32
